@@ -1,39 +1,73 @@
 (* Property C19 - only statements, each closed by [exact].
-   Model: UV.C19.Model (python/trace-python.c as it is; [c_fixed] selects the repaired apply_filters).
+   Model: UV.C19.Model (python/trace-python.c as it is: [c_fixed c = true], which [mkcfg _ _ true]
+   builds; [c_fixed c = false] is the code before fix 5445264, used by the legacy witnesses only).
    A [forest] is a well-formed profile-event stream (CPython's event discipline); [events] flattens it. *)
 From Coq Require Import ZArith NArith List Bool.
 Import ListNotations.
 Require Import UV.C19.Model UV.C19.Proofs.
 Local Open Scope Z_scope.
 
-(* Refinement: for every configuration (filters, libcall mode), every call forest and every
-   non-negative counter state, the callback emits exactly the enter/exit calls of the selected
-   forest [select] (a structural specification) and leaves the three counters as they were.
-   Pinned code: under the guard [nobad] (no opt-out match entered while an opt-in match is open in
-   opt-in mode); repaired code ([c_fixed c = true]): no guard. *)
-Theorem C19_refines_spec : forall c f ci co l,
-  0 <= ci -> 0 <= co -> 0 <= l -> (c_fixed c = true \/ nobad c ci co f = true) ->
+(* Refinement: for every configuration of the current code (filters, libcall mode), every call
+   forest and every non-negative counter state, the callback emits exactly the enter/exit calls of
+   the selected forest [select] (a structural specification) and leaves the three counters as they
+   were.  No guard on the filter set. *)
+Theorem C19_refines_spec : forall c f ci co l, c_fixed c = true ->
+  0 <= ci -> 0 <= co -> 0 <= l ->
   run c {| cin := ci; cout := co; lc := l |} (events f) =
   ({| cin := ci; cout := co; lc := l |}, hooks_of (select c ci co l f)).
-Proof. exact run_forest. Qed.
+Proof. exact run_forest_current. Qed.
 Print Assumptions C19_refines_spec.
 
-(* balanced calls, pinned code, under the exact guard *)
-Theorem C19_balanced_guarded : forall c f, (c_fixed c = true \/ nobad c 0 0 f = true) ->
-  balanced (snd (run c st0 (events f))) = true.
-Proof. exact balanced_run. Qed.
-Print Assumptions C19_balanced_guarded.
+(* balanced calls for all configurations and all forests *)
+Theorem C19_balanced : forall c f, c_fixed c = true -> balanced (snd (run c st0 (events f))) = true.
+Proof. exact balanced_current. Qed.
+Print Assumptions C19_balanced.
 
-(* ... in particular for every filter set that does not mix -F and -N (and for no filter at all) *)
-Theorem C19_balanced_no_mix : forall env m f, no_mix (mkcfg env m false) = true ->
-  run (mkcfg env m false) st0 (events f) = (st0, hooks_of (select (mkcfg env m false) 0 0 0 f)).
-Proof. exact run_forest_no_mix. Qed.
-Print Assumptions C19_balanced_no_mix.
+(* from the initial state: the trace is the selected forest *)
+Theorem C19_balanced_fixed : forall c f, c_fixed c = true ->
+  run c st0 (events f) = (st0, hooks_of (select c 0 0 0 f)).
+Proof. exact run_forest_fixed. Qed.
+Print Assumptions C19_balanced_fixed.
 
-(* The unguarded statement is false for the pinned code: tests/s-abc.py with -F a -N .getpid
-   (8 events): 3 entries and 4 exits, libmcount reports one unpaired exit and closes c, b, a at the
-   times of getpid, c, b.  With the repair the same input gives a() { b() { c() } }. *)
-Theorem C19_unbalanced_refuted :
+(* the three counters return to their value after every complete call *)
+Theorem C19_counter_restored : forall c f s, c_fixed c = true ->
+  0 <= cin s -> 0 <= cout s -> 0 <= lc s -> fst (run c s (events f)) = s.
+Proof. exact counters_current. Qed.
+Print Assumptions C19_counter_restored.
+
+(* libmcount's shadow stack pairs every exit with the entry of the same call: the records are the
+   pre/post-order traversal of the selected forest, the stack is empty again, nothing unpaired *)
+Theorem C19_exit_closes_own_entry : forall c f, c_fixed c = true ->
+  mc_run [] (snd (run c st0 (events f))) = ([], records_of O (select c 0 0 0 f), O).
+Proof. exact mc_run_current. Qed.
+Print Assumptions C19_exit_closes_own_entry.
+
+(* a program that stops anywhere (os._exit, kill): on every prefix of a well-formed stream no exit
+   is emitted without its entry *)
+Theorem C19_prefix_no_unpaired_exit : forall c f p q, c_fixed c = true ->
+  events f = p ++ q -> no_underflow (snd (run c st0 p)) = true.
+Proof. exact prefix_current. Qed.
+Print Assumptions C19_prefix_no_unpaired_exit.
+
+(* a script ended by sys.exit() / an uncaught exception: the interpreter then unwinds frames that
+   were entered before tracing started (runpy); the call-depth test of the callback drops every
+   such `return`, so the callback sees exactly the well-formed stream of the script ... *)
+Theorem C19_exit_by_exception : forall fns f rets,
+  forallb (fun e => match fe_kind e with Return => true | _ => false end) rets = true ->
+  depth_guard O (ievents fns f ++ rets) = ievents fns f.
+Proof. exact exit_by_exception_current. Qed.
+Print Assumptions C19_exit_by_exception.
+
+(* ... and the test never touches a well-formed stream *)
+Theorem C19_depth_guard_transparent : forall fns f d rest,
+  depth_guard d (ievents fns f ++ rest) = ievents fns f ++ depth_guard d rest.
+Proof. exact depth_guard_ievents. Qed.
+Print Assumptions C19_depth_guard_transparent.
+
+(* ---- the code before the repairs (fix 5445264, fix d27b480) ---- *)
+(* tests/s-abc.py with -F a -N .getpid (8 events): 3 entries and 4 exits, libmcount reports one
+   unpaired exit and closes c, b, a at the times of getpid, c, b; the current code gives a{b{c}} *)
+Theorem C19_unbalanced_legacy_refuted :
   length (events abc) = 8%nat /\
   balanced (snd (run (cfg_FN false) st0 (events abc))) = false /\
   mc_run [] (snd (run (cfg_FN false) st0 (events abc))) =
@@ -45,60 +79,32 @@ Theorem C19_unbalanced_refuted :
   run (cfg_FN true) st0 (events abc) =
     (st0, hooks_of (FNode (py nm_a) (FNode (py nm_b) (FNode (py nm_c) FNil FNil) FNil) FNil)).
 Proof. exact unbalanced_witness. Qed.
-Print Assumptions C19_unbalanced_refuted.
+Print Assumptions C19_unbalanced_legacy_refuted.
 
-(* same defect, second symptom: the stray exit decrements libcall_count inside a library call,
-   so a library call below a library call is traced in default mode *)
-Theorem C19_libcount_drift_refuted :
+(* same defect, second symptom: the stray exit decremented libcall_count inside a library call *)
+Theorem C19_libcount_drift_legacy_refuted :
   existsb (hook_eqb (HEnter (l_sym (cf nm_len)))) (snd (run (cfg_FN false) st0 (events drift))) = true /\
   existsb (hook_eqb (HEnter (l_sym (cf nm_len)))) (snd (run (cfg_FN true) st0 (events drift))) = false /\
   existsb (hook_eqb (HEnter (l_sym (cf nm_len)))) (hooks_of (select (cfg_FN false) 0 0 0 drift)) = false.
 Proof. exact counter_drift_witness. Qed.
-Print Assumptions C19_libcount_drift_refuted.
+Print Assumptions C19_libcount_drift_legacy_refuted.
 
-(* repaired code: balanced for all configurations and all forests *)
-Theorem C19_balanced_fixed : forall c f, c_fixed c = true ->
+(* under its exact guard the old apply_filters met the same specification (what the repair changed
+   is exactly the class [nobad = false]) *)
+Theorem C19_legacy_guarded : forall c f, nobad c 0 0 f = true ->
   run c st0 (events f) = (st0, hooks_of (select c 0 0 0 f)).
-Proof. exact run_forest_fixed. Qed.
-Print Assumptions C19_balanced_fixed.
+Proof. exact run_forest_guarded. Qed.
+Print Assumptions C19_legacy_guarded.
 
-(* the three counters return to their value after every complete call *)
-Theorem C19_counter_restored : forall c f s,
-  0 <= cin s -> 0 <= cout s -> 0 <= lc s -> (c_fixed c = true \/ nobad c (cin s) (cout s) f = true) ->
-  fst (run c s (events f)) = s.
-Proof. exact counters_restored. Qed.
-Print Assumptions C19_counter_restored.
-
-(* libmcount's shadow stack pairs every exit with the entry of the same call: the records are the
-   pre/post-order traversal of the selected forest, the stack is empty again, nothing unpaired *)
-Theorem C19_exit_closes_own_entry : forall c f, (c_fixed c = true \/ nobad c 0 0 f = true) ->
-  mc_run [] (snd (run c st0 (events f))) = ([], records_of O (select c 0 0 0 f), O).
-Proof. exact mc_run_forest. Qed.
-Print Assumptions C19_exit_closes_own_entry.
-
-(* a program that stops anywhere (sys.exit, os._exit, kill): on every prefix of a well-formed
-   stream no exit is emitted without its entry *)
-Theorem C19_prefix_no_unpaired_exit : forall c f p q, (c_fixed c = true \/ nobad c 0 0 f = true) ->
-  events f = p ++ q -> no_underflow (snd (run c st0 p)) = true.
-Proof. exact prefix_no_underflow. Qed.
-Print Assumptions C19_prefix_no_unpaired_exit.
-
-(* ... but the real stream of a script that ends by sys.exit() or an uncaught exception continues
-   with the returns of two runpy frames that were never entered under the profiler: two unpaired
-   exits reach libmcount in default and --nest-libcall mode (none with --no-libcall) *)
-Theorem C19_exit_by_exception_refuted :
+(* without the call-depth test the two runpy returns after sys.exit() reached libmcount as
+   unpaired exits in default and --nest-libcall mode *)
+Theorem C19_exit_by_exception_legacy_refuted :
   no_underflow (snd (run (cfg_plain LSingle) st0 exit_stream)) = false /\
   snd (mc_run [] (snd (run (cfg_plain LSingle) st0 exit_stream))) = 2%nat /\
   snd (mc_run [] (snd (run (cfg_plain LNested) st0 exit_stream))) = 2%nat /\
   no_underflow (snd (run (cfg_plain LNone) st0 exit_stream)) = true.
 Proof. exact exit_by_exception_witness. Qed.
-Print Assumptions C19_exit_by_exception_refuted.
-
-(* the repair proposed for it (ignore a return at call depth 0) is the identity on well-formed streams *)
-Theorem C19_depth_guard_transparent : forall fns f d rest,
-  depth_guard d (ievents fns f ++ rest) = ievents fns f ++ depth_guard d rest.
-Proof. exact depth_guard_ievents. Qed.
-Print Assumptions C19_depth_guard_transparent.
+Print Assumptions C19_exit_by_exception_legacy_refuted.
 
 (* the specification factorises into the filter selection and the library policy *)
 Theorem C19_spec_factors : forall c f ci co l, select c ci co l f = libprune (c_lib c) l (fsel c ci co f).
